@@ -515,6 +515,25 @@ def r15_3(ctx, prog, crate):
             ctx.check(ps == {m.param_name(2)}, "R15.3", ["builder", f, "from-own-parameter"], "value derives from %s" % sorted(ps), m.where(bi))
 
 
+def _nonzero_or_parallelism(m):
+    """The closure returns NonZero::new(<its argument>).unwrap_or_else(known_parallelism) (the function by name or a closure
+    that calls nothing else) on its only path."""
+    from lib.patheval import PathEval
+    sums = PathEval(m).run()
+    if not sums or len(sums) != 1 or sums[0].conds:
+        return False
+    r = sums[0].ret
+    if not (r[0] == "site" and r[1] == "std::option::Option::unwrap_or_else" and len(r[3]) == 2):
+        return False
+    inner, alt = r[3]
+    if not (inner[0] == "site" and inner[1] == "std::num::NonZero::new" and len(inner[3]) == 1 and "('arg', 2" in str(inner[3][0])):
+        return False
+    if alt == ("opaque", "fn:util::known_parallelism"):
+        return True
+    kids = [x for x in m.prog.children(m) if x.kind == "Closure"]
+    return len(kids) == 1 and [c.callee for c in kids[0].live_calls()] == ["util::known_parallelism"]
+
+
 def r15_4(ctx, prog, crate):
     b = prog.body("divan::Divan::run_bench_entry", crate)
     if b is None:
@@ -527,7 +546,10 @@ def r15_4(ctx, prog, crate):
         nz = [c for c in m.live_calls() if c.callee == "std::num::NonZero::new"][0]
         kp = [c for c in m.live_calls() if c.callee == "util::known_parallelism"]
         ok = len(kp) == 1
-        if ok:
+        comb = _nonzero_or_parallelism(m)
+        if comb:
+            ok = True       # NonZero::new(n).unwrap_or_else(known_parallelism): the same mapping as a combinator
+        elif ok:
             # known_parallelism only on the None arm of NonZero::new's result
             sw_ = tables.switch_on_call_result(m, nz)
             sw = [sw_] if sw_ is not None else []
